@@ -1014,6 +1014,8 @@ def gen_bodies():
             table.append((desc, wrapped, shapes, vshape, info.lean))
         except Refuse as e:
             refused.append((desc, str(e)))
+        except RecursionError:
+            refused.append((desc, "translator gave up (recursion depth)"))
     L = [HEADER, "import KaVerif.Model.PyRt",
          "/-\n  The registered function bodies of src/ka/functions.py, TRANSLATED from their Python source by translate/gen_bodies.py\n"
          "  (shallow embedding over `Eval.Val`; Python runtime: Model/PyRt.lean).  `bodiesTable` is keyed by the implementation\n"
